@@ -35,7 +35,18 @@ pub mod trusted_axioms {
         ensures #[trigger] it.obeys_prophetic_iter_laws(),
     {}
 }
-broadcast use {trusted_axioms::axiom_contains_ref_key, trusted_axioms::axiom_maps_ref_key_to_value, trusted_axioms::axiom_hashmap_from_iter, trusted_axioms::axiom_fmt_never_panics, trusted_axioms::axiom_hm_into_iter_laws,
+pub mod proved_lemmas {
+    use vstd::prelude::*;
+    // (verified, not assumed) every element of a sequence of references is in the set of its referents
+    pub broadcast proof fn lemma_unref_to_set_contains<K>(s: Seq<&K>, i: int)
+        requires 0 <= i < s.len()
+        ensures #![trigger s.unref().to_set(), s[i]] s.unref().to_set().contains(*s[i])
+    {
+        assert(s.unref()[i] == *s[i]);
+        assert(s.unref().contains(*s[i]));
+    }
+}
+broadcast use {proved_lemmas::lemma_unref_to_set_contains, trusted_axioms::axiom_contains_ref_key, trusted_axioms::axiom_maps_ref_key_to_value, trusted_axioms::axiom_hashmap_from_iter, trusted_axioms::axiom_fmt_never_panics, trusted_axioms::axiom_hm_into_iter_laws,
                vstd::std_specs::fmt::group_fmt_axioms, vstd::std_specs::hash::group_hash_axioms};
 
 #[verifier::reject_recursive_types(A)]
